@@ -119,6 +119,13 @@ Theorem C03_inverse_gaussian_pos : forall t mean shape ws e rest x,
   evals (inverse_gaussian t mean shape ws) (e, rest) -> evalX e = Xreal x -> 0 < x.
 Proof. exact inverse_gaussian_pos. Qed.
 
+(* the exponential tail routine of the ziggurat is defined and finite for EVERY word (repair of finding F5: the draw is
+   Open01, so ln never sees 0) and its value exceeds the tail start r *)
+Theorem C03_exp_tail_defined : forall um u w ws, word w ->
+  exists x, evals (exp_zero um u (w :: ws)) (Bin Sub (dyx ZIG_EXP_R) (eln (u_open F64 w)), ws) /\
+            evalX (Bin Sub (dyx ZIG_EXP_R) (eln (u_open F64 w))) = Xreal x /\ dyR ZIG_EXP_R < x.
+Proof. exact exp_zero_defined. Qed.
+Print Assumptions C03_exp_tail_defined.
 Print Assumptions C03_lognormal_pos.
 Print Assumptions C03_fisher_f_nonneg.
 Print Assumptions C03_inverse_gaussian_pos.
